@@ -105,7 +105,6 @@ func calculateCredibility(C float64, results *[]*electreIIISingleResult) float64
 	return credibility
 }
 
-// TODO what with diff == 0?
 func evaluatePair(
 	a1, a2 *AlternativeWithCriteria,
 	c *Criterion,
@@ -124,7 +123,8 @@ func evaluatePair(
 }
 
 func calculateElectreResult(c1Val, c2Val Weight, c *Criterion, ths *ElectreCriterion) *ElectreResult {
-	if c1Val > c2Val {
+	// not worse (better or equal) on this criterion: fully concordant, whatever thresholds are declared
+	if c1Val >= c2Val {
 		return &ElectreResult{C: 1}
 	}
 	originalFirstCriterionValue := c1Val * Weight(c.Multiplier())
